@@ -161,6 +161,17 @@ fn carrier_specs(thorough: bool) -> Vec<UniSpec> {
     regex: vec![vec!["123".into()]],
     fields: vec!["left".into(), "right".into()],
   });
+  // texts with syntax errors: `kind: ERROR` is a kind like any other wherever it stands in a rule (sub-rule of a relation,
+  // negated, member of any / all), and ERROR nodes are candidates like any other
+  v.push(UniSpec {
+    full: false,
+    lang: l,
+    sources: vec!["foo(1); ) bar(2);".into(), "x = = 123; foo(2)".into(), "foo(1); bar(2)".into()],
+    patterns: vec!["foo($A)".into(), "$F(2)".into()],
+    kinds: vec!["ERROR".into(), "expression_statement".into(), "number".into()],
+    regex: vec![],
+    fields: vec!["function".into()],
+  });
   if thorough {
     v.push(UniSpec {
       full: true,
